@@ -256,8 +256,7 @@ func New(rules Rules) (*StatefulDefinition, error) {
 				re  *regexp.Regexp
 				err error
 			)
-			var match = backrefReplace.FindStringSubmatch(rule.Pattern)
-			if match == nil || len(match[1])%2 == 0 {
+			if !hasBackref(rule.Pattern) {
 				re, err = regexp.Compile(pattern)
 				if err != nil {
 					return nil, fmt.Errorf("lexer: %s.%d: %s", key, i, err)
@@ -454,6 +453,17 @@ func (l *StatefulLexer) getPattern(candidate compiledRule) (*regexp.Regexp, erro
 	return BackrefRegex(&l.def.backrefCache, candidate.Pattern, l.stack[len(l.stack)-1].groups)
 }
 
+// hasBackref reports whether the pattern contains a back-reference: a digit preceded by
+// an odd number of backslashes.
+func hasBackref(pattern string) bool {
+	for _, match := range backrefReplace.FindAllStringSubmatch(pattern, -1) {
+		if len(match[1])%2 == 1 {
+			return true
+		}
+	}
+	return false
+}
+
 // BackrefRegex returns a compiled regular expression with backreferences replaced by groups.
 func BackrefRegex(backrefCache *sync.Map, input string, groups []string) (*regexp.Regexp, error) {
 	key := input + "\000" + strings.Join(groups, "\000")
@@ -468,6 +478,10 @@ func BackrefRegex(backrefCache *sync.Map, input string, groups []string) (*regex
 	)
 	pattern := backrefReplace.ReplaceAllStringFunc(input, func(s string) string {
 		var rematch = backrefReplace.FindStringSubmatch(s)
+		if len(rematch[1])%2 == 0 {
+			// An even number of backslashes is escaped backslashes followed by a literal digit.
+			return s
+		}
 		n, nerr := strconv.ParseInt(rematch[2], 10, 64)
 		if nerr != nil {
 			err = nerr
